@@ -4,3 +4,6 @@ pub assume_specification<T: Clone>[ <[T]>::fill ](dst: &mut [T], value: T)
     ensures final(dst).len() == old(dst).len(), forall|k: int| 0 <= k < final(dst).len() ==> #[trigger] final(dst)[k] == value;
 pub open spec fn is_pow2_i(n: int) -> bool { n > 0 && exists|k: nat| k < 64 && n == vstd::arithmetic::power2::pow2(k) as int }
 pub assume_specification[ usize::is_power_of_two ](x: usize) -> (r: bool) ensures r == is_pow2_i(x as int);
+// <[T]>::to_vec: a vector of the same length (element i is a clone of element i)
+pub assume_specification<T: Clone>[ <[T]>::to_vec ](s: &[T]) -> (r: Vec<T>)
+    ensures r@.len() == s@.len(), forall|k: int| 0 <= k < s@.len() ==> vstd::pervasive::cloned(#[trigger] s@[k], r@[k]);
